@@ -7,7 +7,7 @@ import (
 )
 
 type slot struct {
-	kind byte // 'v' vector, 'm' matrix, 's' scalar, 'l' index/value list, 'o' list order, 0 none
+	kind byte // 'v' vector, 'm' matrix, 's' scalar, 'l' index/value list, 'o' list order, 'E' epsilon of Equals, 0 none
 	r, c int  // vector: r = n
 }
 
@@ -30,6 +30,44 @@ type family struct {
 	levels [3]int
 	types  []*tinfo
 	varM   bool
+	// storage letters per slot: d dense, s sparse, c SparseConst*Vector (vector operands
+	// only), - scalar/none
+	stor  [3]string
+	needC bool // only the storage combinations with a SparseConst operand (the others are covered elsewhere)
+	cross bool // every receiver type with all 7 SparseConst element types (else the one of the same precision)
+	ctOp  bool // the operation itself has a SparseConst element type (VasConst, VnewConst)
+	// operand histories (hist.go): every history of 1..histLen steps on slot histSlot
+	histSlot int // -1: none
+	histLen  int
+	histSl2  bool // slice steps also in the two-step histories
+}
+
+// hists: the histories enumerated inside the family ("" = none).
+func (f *family) hists() []string {
+	if f.histSlot < 0 {
+		return []string{""}
+	}
+	return histories(f.slots[f.histSlot], f.histSlot, f.histLen, f.histSl2)
+}
+
+// ctypesFor: the SparseConst element types run with receiver type t under storage stor.
+func (f *family) ctypesFor(t *tinfo, stor string) []*cinfo {
+	if !f.ctOp && !containsByte(stor, 'c') {
+		return []*cinfo{nil}
+	}
+	if f.cross {
+		return ctypes
+	}
+	return []*cinfo{pairedConst(t)}
+}
+
+func containsByte(s string, b byte) bool {
+	for i := 0; i < len(s); i++ {
+		if s[i] == b {
+			return true
+		}
+	}
+	return false
 }
 
 // Alphabet levels (per element position p; x(p) = 1 for even p, -2 for odd p):
@@ -38,13 +76,31 @@ type family struct {
 //	1: dense {0,x}     sparse {_,x}
 //	2: dense {0,x}     sparse {_,e,x}      (+z in variable mode)
 //	3: dense {0,1,m}   sparse {_,e,1,m}    (+z in variable mode)
+//
+// Equals alphabets (t=1e-17, u=-1e-17, n=1e-9, q=0.75, I=+Inf, J=-Inf, N=NaN):
+//
+//	4: dense {0,t,q,1}       sparse {_,e,t,q,1}
+//	5: dense {0,t,u,n,q,1}   sparse {_,e,t,u,n,q,1}
+//	6: dense {0,1,I,J,N}     sparse {_,e,1,I,J,N}
+//	7: dense {0,t,1}         sparse {_,e,t,1}
+//
+// SparseConst operands (storage c) use the sparse alphabets and never hold variables.
 func alphabet(stor byte, level int, varM bool, p int) string {
 	x := "1"
 	if p%2 == 1 {
 		x = "m"
 	}
+	if stor == 'c' {
+		stor, varM = 's', false
+	}
 	var a string
 	switch {
+	case level >= 4:
+		a = map[int]string{4: "tq1", 5: "tunq1", 6: "1IJN", 7: "t1"}[level]
+		if stor == 'd' {
+			return "0" + a
+		}
+		return "_e" + a
 	case stor == 'd' && level <= 2:
 		a = "0" + x
 	case stor == 'd':
@@ -72,12 +128,14 @@ func patterns(s slot, stor byte, level int, varM bool) []string {
 		if level <= 1 {
 			return []string{"0", "1"}
 		}
-		if varM {
+		if varM && stor != 'c' {
 			return []string{"0", "1", "m", "z"}
 		}
 		return []string{"0", "1", "m"}
 	case 'o':
 		return []string{"asc", "desc"}
+	case 'E':
+		return []string{"1e-08", "0.75", "0"}
 	case 'l', 'L':
 		stor = s.kind
 	}
@@ -129,13 +187,7 @@ func patterns(s slot, stor byte, level int, varM bool) []string {
 // storage combinations of a family, all-dense first
 func storages(f *family) []string {
 	res := []string{""}
-	for _, s := range f.slots {
-		var opts string
-		if s.kind == 'v' || s.kind == 'm' {
-			opts = "ds"
-		} else {
-			opts = "-"
-		}
+	for _, opts := range f.stor {
 		var nx []string
 		for _, pre := range res {
 			for i := 0; i < len(opts); i++ {
@@ -144,7 +196,28 @@ func storages(f *family) []string {
 		}
 		res = nx
 	}
+	if f.needC {
+		var nx []string
+		for _, st := range res {
+			if containsByte(st, 'c') {
+				nx = append(nx, st)
+			}
+		}
+		res = nx
+	}
 	return res
+}
+
+func defaultStor(slots [3]slot) [3]string {
+	var r [3]string
+	for i, s := range slots {
+		if s.kind == 'v' || s.kind == 'm' {
+			r[i] = "ds"
+		} else {
+			r[i] = "-"
+		}
+	}
+	return r
 }
 
 func vecSlot(n int) slot    { return slot{'v', n, 0} }
@@ -156,8 +229,12 @@ type famBuilder struct {
 	fams []*family
 }
 
-func (fb *famBuilder) add(op string, dims []int, levels [3]int, types []*tinfo, varM bool) {
-	fb.fams = append(fb.fams, &family{op: op, dims: dims, slots: opSlots(op, dims), levels: levels, types: types, varM: varM})
+func (fb *famBuilder) add(op string, dims []int, levels [3]int, types []*tinfo, varM bool) *family {
+	f := &family{op: op, dims: dims, slots: opSlots(op, dims), levels: levels, types: types, varM: varM, histSlot: -1}
+	f.stor = defaultStor(f.slots)
+	f.ctOp = op == "VasConst" || op == "VnewConst"
+	fb.fams = append(fb.fams, f)
+	return f
 }
 
 // opSlots gives the shape of receiver, a and b of an operation.
@@ -172,6 +249,14 @@ func opSlots(op string, d []int) [3]slot {
 		return [3]slot{scalarSlot, vecSlot(d[0]), vecSlot(d[0])}
 	case "Vset", "Vequals":
 		return [3]slot{vecSlot(d[0]), vecSlot(d[0]), none}
+	case "VequalsE":
+		return [3]slot{vecSlot(d[0]), vecSlot(d[0]), {kind: 'E'}}
+	case "MequalsE":
+		return [3]slot{matSlot(d[0], d[1]), matSlot(d[0], d[1]), {kind: 'E'}}
+	case "VasConst":
+		return [3]slot{none, vecSlot(d[0]), none}
+	case "VnewConst":
+		return [3]slot{none, {kind: 'l', r: d[0]}, {kind: 'o'}}
 	case "Vreset":
 		return [3]slot{vecSlot(d[0]), none, none}
 	case "VasDense", "VasSparse":
@@ -266,6 +351,135 @@ func (fb *famBuilder) matrixFamilies(r, c int, lv [3]int, ra [2]int, types []*ti
 
 func (fb *famBuilder) mdotm(n, k, m int, lv [3]int, types []*tinfo, varM bool) {
 	fb.add("MdotM", []int{n, k, m}, lv, types, varM)
+}
+
+// ---- SparseConst*Vector operands (storage class c) ---------------------------------
+
+func (f *family) withConst(cross bool, slots ...int) *family {
+	for _, i := range slots {
+		f.stor[i] = "dsc"
+	}
+	f.needC, f.cross = true, cross
+	return f
+}
+
+// constVectorFamilies: every vector operation that accepts ConstVector operands, with at
+// least one operand stored as SparseConst*Vector. lvR/lvO: alphabet levels of the
+// receiver's prior content and of the operands.
+func (fb *famBuilder) constVectorFamilies(n int, lvR, lvO int, types []*tinfo, cross, varM bool) {
+	d := []int{n}
+	for _, op := range vecBin {
+		fb.add(op, d, [3]int{lvR, lvO, lvO}, types, varM).withConst(cross, 1, 2)
+	}
+	for _, op := range vecScal {
+		fb.add(op, d, [3]int{lvR, lvO, 3}, types, varM).withConst(cross, 1)
+	}
+	fb.add("VdotV", d, [3]int{1, lvO, lvO}, types, varM).withConst(cross, 1, 2)
+	fb.add("Vset", d, [3]int{lvR, lvO, 0}, types, varM).withConst(cross, 1)
+	fb.add("Vequals", d, [3]int{lvO, lvO, 0}, types, varM).withConst(cross, 0, 1)
+	fb.add("VasDense", d, [3]int{0, lvO, 0}, types, varM).withConst(cross, 1)
+	fb.add("VasSparse", d, [3]int{0, lvO, 0}, types, varM).withConst(cross, 1)
+	if !varM {
+		f := fb.add("VasConst", d, [3]int{0, lvO, 0}, types, false)
+		f.stor[1], f.cross = "dsc", cross
+		fb.add("VnewConst", d, [3]int{3, 3, 3}, f64Only, false).cross = true
+	}
+}
+
+func (fb *famBuilder) constMatVecFamilies(n, m int, lvR, lvVec, lvMat int, types []*tinfo, cross, varM bool) {
+	fb.add("MdotV", []int{n, m}, [3]int{lvR, lvMat, lvVec}, types, varM).withConst(cross, 2)
+	fb.add("VdotM", []int{n, m}, [3]int{lvR, lvVec, lvMat}, types, varM).withConst(cross, 1)
+	fb.add("Outer", []int{n, m}, [3]int{lvR, lvVec, lvVec}, types, varM).withConst(cross, 1, 2)
+}
+
+// ---- operand histories ---------------------------------------------------------------
+
+// histFamily: op with every history of 1..hlen steps on slot si. The operand with the
+// history gets level lvH and every storage class it admits; the other operands level lvO
+// (dense/sparse), the receiver's prior content level lvR.
+func (fb *famBuilder) histFamily(op string, dims []int, si, hlen int, sl2 bool, lvH, lvO, lvR int, types []*tinfo) {
+	f := fb.add(op, dims, [3]int{lvR, lvO, lvO}, types, false)
+	for i := 1; i < 3; i++ {
+		if f.slots[i].kind == 'm' && f.slots[si].kind == 'v' {
+			f.levels[i] = 0 // matrix next to a vector with a history: all-zero / all-x
+		}
+	}
+	f.levels[si] = lvH
+	f.histSlot, f.histLen, f.histSl2 = si, hlen, sl2
+	if f.slots[si].kind == 'v' && (si > 0 || op == "Vequals") {
+		f.stor[si] = "dsc"
+	}
+}
+
+// vecHistFamilies: histories on every vector operand of every operation (dimension n;
+// matrix-vector products with an n×m / m×n matrix for every m in ms).
+func (fb *famBuilder) vecHistFamilies(n int, ms []int, hlen int, sl2 bool, lvH, lvO, lvR int, types []*tinfo, recvToo bool) {
+	d := []int{n}
+	h := func(op string, dims []int, slots ...int) {
+		for _, si := range slots {
+			if si == 0 && !recvToo && op != "Vequals" {
+				continue
+			}
+			fb.histFamily(op, dims, si, hlen, sl2, lvH, lvO, lvR, types)
+		}
+	}
+	for _, op := range vecBin {
+		h(op, d, 1, 2, 0)
+	}
+	for _, op := range vecScal {
+		h(op, d, 1, 0)
+	}
+	h("VdotV", d, 1, 2)
+	h("Vset", d, 1, 0)
+	h("Vequals", d, 0, 1)
+	h("VasDense", d, 1)
+	h("VasSparse", d, 1)
+	h("VasConst", d, 1)
+	for _, m := range ms {
+		h("MdotV", []int{m, n}, 2) // b has dimension n
+		h("VdotM", []int{n, m}, 1)
+		h("Outer", []int{n, m}, 1)
+		h("Outer", []int{m, n}, 2)
+		if recvToo {
+			h("MdotV", []int{n, m}, 0)
+			h("VdotM", []int{m, n}, 0)
+		}
+	}
+}
+
+// matHistFamilies: histories on every matrix operand (r×c).
+func (fb *famBuilder) matHistFamilies(r, c int, hlen int, sl2 bool, lvH, lvO, lvR int, types []*tinfo) {
+	d := []int{r, c}
+	h := func(op string, dims []int, slots ...int) {
+		for _, si := range slots {
+			fb.histFamily(op, dims, si, hlen, sl2, lvH, lvO, lvR, types)
+		}
+	}
+	for _, op := range matBin {
+		h(op, d, 1, 2)
+	}
+	for _, op := range matScal {
+		h(op, d, 1)
+	}
+	h("Mset", d, 1)
+	h("Mequals", d, 0, 1)
+	h("MasDense", d, 1)
+	h("MasSparse", d, 1)
+	h("MdotV", d, 1)
+	h("VdotM", d, 2)
+	h("MdotM", []int{r, c, r}, 1)
+	h("MdotM", []int{c, r, c}, 2)
+}
+
+// ---- Equals with tiny differences and several epsilons ------------------------------
+
+func (fb *famBuilder) vequalsE(n, level int, types []*tinfo) {
+	f := fb.add("VequalsE", []int{n}, [3]int{level, level, 0}, types, false)
+	f.stor[0], f.stor[1] = "dsc", "dsc"
+}
+
+func (fb *famBuilder) mequalsE(r, c, level int, types []*tinfo) {
+	fb.add("MequalsE", []int{r, c}, [3]int{level, level, 0}, types, false)
 }
 
 func subtract(all []*tinfo, minus []*tinfo) []*tinfo {
@@ -393,6 +607,88 @@ func families(tier string) []*family {
 			}
 		}
 		fb.mdotm(3, 3, 3, L(0, 1, 1), f64Only, false)
+	}
+	// ---- SparseConst*Vector operands ----
+	floatReal := typeSet("Float64", "Real64", "Float32", "Real32")
+	for n := 0; n <= 2; n++ {
+		fb.constVectorFamilies(n, 1, 3, allTypes, true, false)
+		fb.constVectorFamilies(n, 1, 3, realTypes, false, true)
+	}
+	if thorough {
+		fb.constVectorFamilies(3, 1, 3, allTypes, false, false)
+		fb.constVectorFamilies(3, 1, 2, realTypes, false, true)
+		fb.constVectorFamilies(4, 1, 2, f64Only, false, false)
+	} else {
+		fb.constVectorFamilies(3, 1, 2, allTypes, false, false)
+		fb.constVectorFamilies(3, 0, 2, real64, false, true)
+	}
+	for n := 0; n <= 2; n++ {
+		for m := 0; m <= 2; m++ {
+			lvM := 2
+			if n*m <= 2 {
+				lvM = 3
+			}
+			fb.constMatVecFamilies(n, m, 1, 3, lvM, allTypes, thorough || n*m <= 2, false)
+			fb.constMatVecFamilies(n, m, 1, 2, 1, realTypes, false, true)
+		}
+	}
+	if thorough {
+		for _, d := range [][2]int{{1, 3}, {3, 1}, {2, 3}, {3, 2}, {3, 3}} {
+			fb.constMatVecFamilies(d[0], d[1], 1, 2, 1, allTypes, false, false)
+		}
+	}
+
+	// ---- operand histories ----
+	if thorough {
+		for n := 0; n <= 2; n++ {
+			fb.vecHistFamilies(n, []int{1, 2}, 2, true, 3, 1, 1, allTypes, true)
+		}
+		fb.vecHistFamilies(3, []int{2}, 2, true, 3, 1, 0, mainTypes, false)
+		fb.vecHistFamilies(3, []int{2}, 1, true, 3, 1, 0, others, false)
+		fb.vecHistFamilies(4, []int{2}, 1, true, 2, 0, 0, f64Only, false)
+		for _, d := range [][2]int{{1, 1}, {1, 2}, {2, 1}} {
+			fb.matHistFamilies(d[0], d[1], 2, false, 3, 0, 0, allTypes)
+		}
+		fb.matHistFamilies(2, 2, 2, false, 3, 0, 0, mainTypes)
+		fb.matHistFamilies(2, 3, 1, true, 2, 0, 0, mainTypes)
+		fb.matHistFamilies(3, 2, 1, true, 2, 0, 0, mainTypes)
+	} else {
+		for n := 0; n <= 1; n++ {
+			fb.vecHistFamilies(n, []int{1, 2}, 2, true, 3, 1, 1, allTypes, true)
+		}
+		fb.vecHistFamilies(2, []int{2}, 2, true, 3, 1, 0, mainTypes, false)
+		fb.vecHistFamilies(2, []int{2}, 1, true, 3, 1, 0, others, false)
+		fb.vecHistFamilies(2, []int{1}, 1, true, 3, 0, 0, mainTypes, true)
+		fb.vecHistFamilies(3, []int{1}, 1, true, 2, 0, 0, mainTypes, false)
+		for _, d := range [][2]int{{1, 1}, {1, 2}, {2, 1}} {
+			fb.matHistFamilies(d[0], d[1], 2, false, 3, 0, 0, mainTypes)
+		}
+		fb.matHistFamilies(2, 2, 1, true, 2, 0, 0, mainTypes)
+	}
+
+	// ---- Equals: tiny differences, several epsilons, infinities and NaN ----
+	for n := 0; n <= 2; n++ {
+		fb.vequalsE(n, 5, allTypes)
+		fb.vequalsE(n, 6, floatReal)
+	}
+	if thorough {
+		fb.vequalsE(3, 4, allTypes)
+		fb.vequalsE(3, 6, floatReal)
+	} else {
+		fb.vequalsE(3, 4, floatReal)
+	}
+	for r := 0; r <= 2; r++ {
+		for c := 0; c <= 2; c++ {
+			switch {
+			case r*c <= 2:
+				fb.mequalsE(r, c, 5, allTypes)
+				fb.mequalsE(r, c, 6, floatReal)
+			case thorough:
+				fb.mequalsE(r, c, 4, allTypes)
+			default:
+				fb.mequalsE(r, c, 7, floatReal)
+			}
+		}
 	}
 	return fb.fams
 }
